@@ -52,6 +52,14 @@ def build_cell(cs):
         for i in range(cs[1]):
             t.add_row("x" * (i + 1), "yy zz")
         return t
+    if kind == "ntable":
+        # a nested one-column table (no box, no header, no padding) whose column FOLDS: whatever options the outer column
+        # hands down (no_wrap, overflow, justify), the inner column's own settings win, so every character must survive
+        t = Table(box=None, show_header=False, padding=0, pad_edge=False)
+        t.add_column(overflow="fold", no_wrap=False)
+        for text in cs[1]:
+            t.add_row(Text(text))
+        return t
     if kind == "none":
         return None
     raise ValueError(cs)
@@ -93,6 +101,33 @@ def build_table(spec):
     for c in late:  # a column added after the rows: it has NO cells, so zip(*columns) yields header/footer only
         t.add_column(build_cell(c["header"]), build_cell(c["footer"]), **col_kw(c))
     return t
+
+
+def incoming_options(console, spec):
+    """the ConsoleOptions the table is rendered WITH (`console.print(table, no_wrap=True)`, a parent renderable's options...):
+    the console defaults with spec["render_opts"] set verbatim (None included)."""
+    import dataclasses
+
+    return dataclasses.replace(console.options, **spec.get("render_opts", {}))
+
+
+def cell_options(console, table, column, w):
+    """The options `Table._render` must hand a cell of `column` at width w, DERIVED FROM THE DOCUMENTED SEMANTICS, not read off the
+    code: the column's own justify / overflow / no_wrap always win over whatever the table itself is rendered with, highlight is
+    the table's.  (Built with dataclasses.replace, not ConsoleOptions.update, whose `None` means "keep".)"""
+    import dataclasses
+
+    return dataclasses.replace(console.options, min_width=w, max_width=w, justify=column.justify, overflow=column.overflow,
+                               no_wrap=bool(column.no_wrap), highlight=table.highlight)
+
+
+def annotation_options(console, table, incoming, w, justify):
+    """title / caption: rendered with the table's own options (so they DO inherit overflow / no_wrap), at the table width, with
+    the title's justify and the table's highlight."""
+    import dataclasses
+
+    return dataclasses.replace(console.options, min_width=w, max_width=w, justify=justify, overflow=incoming.overflow,
+                               no_wrap=incoming.no_wrap, highlight=table.highlight)
 
 
 def plain_lines(segments):
@@ -142,11 +177,11 @@ class Pool:
         self.tab.append(entries)
         return self.index[key]
 
-    def cell(self, key, renderable, justify, overflow, no_wrap, highlight):
+    def cell(self, key, renderable, table, column):
         from rich.cells import cell_len
         from rich.measure import Measurement
 
-        k = ("cell", key, justify, overflow, no_wrap)
+        k = ("cell", key, column.justify, column.overflow, bool(column.no_wrap), table.highlight)
         if k in self.index:
             return self.index[k]
         console = self.console
@@ -154,7 +189,7 @@ class Pool:
         for w in range(self.wtab + 1):
             try:
                 m = Measurement.get(console, renderable, w) if w >= 1 else Measurement(0, 0)
-                opts = console.options.update(width=w, highlight=highlight).update(width=w, justify=justify, no_wrap=no_wrap, overflow=overflow)
+                opts = cell_options(console, table, column, w)
                 lines = [line_text(l) for l in console.render_lines(renderable, opts)]
             except Exception as e:  # the oracle is undefined here; the model answers `unmodelled` if it asks
                 self.ctx.note("oracle_raises:" + type(e).__name__)
@@ -167,15 +202,15 @@ class Pool:
             entries.append((m.minimum, m.maximum, lines))
         return self._add(k, entries)
 
-    def annotation(self, key, text, justify, highlight):
-        k = ("ann", key, justify)
+    def annotation(self, key, text, justify, table, incoming):
+        k = ("ann", key, justify, incoming.overflow, incoming.no_wrap, table.highlight)
         if k in self.index:
             return self.index[k]
         console = self.console
         entries = []
         for w in range(self.wtab + 1):
             try:
-                opts = console.options.update(width=w, highlight=highlight).update(justify=justify)
+                opts = annotation_options(console, table, incoming, w, justify)
                 entries.append((0, 0, plain_lines(list(console.render(text, opts)))))
             except Exception as e:
                 self.ctx.note("oracle_raises:" + type(e).__name__)
